@@ -735,18 +735,15 @@ func runClosedChannelReceives(c *core.Ctx, pkgs []string, floor int) {
 					return true
 				}
 				n++
-				// the first statement of the clause tests the pointer or the ok flag
-				tested := false
-				if len(cc.Body) > 0 {
-					if ifs, ok := cc.Body[0].(*ast.IfStmt); ok {
-						cond := core.ExprStr(ifs.Cond)
-						for _, l := range as.Lhs {
-							if id, ok := l.(*ast.Ident); ok && (cond == id.Name+" == nil" || cond == "!"+id.Name) {
-								tested = true
-							}
-						}
+				// the received pointer (or the ok flag) is tested before the pointer is dereferenced, in the clause or
+				// in the same-package function the pointer is handed to
+				var objs []types.Object
+				for _, l := range as.Lhs {
+					if id, ok := l.(*ast.Ident); ok && id.Name != "_" {
+						objs = append(objs, info.ObjectOf(id))
 					}
 				}
+				tested := testedBeforeDeref(c.P, g, cc.Body, objs, 0)
 				c.Check("receive-from-closable-channel-tests-nil", fmt.Sprintf("%s/<-%s#%d", g.Root().Name, fld.Name(), n), c.P.Pos(cc.Pos()), tested,
 					"the channel is closed by "+closed[fld]+": after that this receive yields nil, and the clause uses the received pointer without testing it (or the ok flag) first - a nil dereference in a background goroutine takes the process down")
 				return true
@@ -756,4 +753,85 @@ func runClosedChannelReceives(c *core.Ctx, pkgs []string, floor int) {
 	if floor > 0 {
 		c.Floor("receives from pointer channels that a sibling method closes", n, floor)
 	}
+}
+
+// testedBeforeDeref scans statements in order: true when a test of one of objs (against nil, or a boolean ok flag)
+// comes before any dereference of them (a selector on the object); a call that hands the object to a function of the
+// same package is followed into that function (the parameter takes the object's place).
+func testedBeforeDeref(p *core.Prog, f *core.FuncInfo, stmts []ast.Stmt, objs []types.Object, depth int) bool {
+	info := f.Info()
+	is := func(x ast.Expr) bool {
+		id, ok := ast.Unparen(x).(*ast.Ident)
+		if !ok {
+			return false
+		}
+		for _, o := range objs {
+			if info.ObjectOf(id) == o {
+				return true
+			}
+		}
+		return false
+	}
+	for _, st := range stmts {
+		if ifs, ok := st.(*ast.IfStmt); ok && ifs.Init == nil {
+			testedHere := false
+			ast.Inspect(ifs.Cond, func(m ast.Node) bool {
+				switch x := m.(type) {
+				case *ast.BinaryExpr:
+					if (is(x.X) && isNilExpr(info, x.Y)) || (is(x.Y) && isNilExpr(info, x.X)) {
+						testedHere = true
+					}
+				case *ast.UnaryExpr:
+					if x.Op.String() == "!" && is(x.X) {
+						testedHere = true
+					}
+				case *ast.Ident:
+					if is(x) {
+						if b, ok := info.TypeOf(x).Underlying().(*types.Basic); ok && b.Kind() == types.Bool {
+							testedHere = true
+						}
+					}
+				}
+				return true
+			})
+			if testedHere {
+				return true
+			}
+		}
+		deref, verdict, decided := false, false, false
+		ast.Inspect(st, func(m ast.Node) bool {
+			switch x := m.(type) {
+			case *ast.SelectorExpr:
+				if is(x.X) {
+					deref = true
+				}
+			case *ast.CallExpr:
+				if depth >= 3 || decided {
+					return true
+				}
+				for j, a := range x.Args {
+					if !is(a) {
+						continue
+					}
+					fn, _ := core.Callee(info, x).(*types.Func)
+					h := p.FuncOf(fn)
+					if h == nil || h.Body == nil || h.Pkg != f.Pkg {
+						continue
+					}
+					ps := paramObjs(h)
+					if j < len(ps) && ps[j] != nil {
+						verdict, decided = testedBeforeDeref(p, h, h.Body.List, []types.Object{ps[j]}, depth+1), true
+					}
+				}
+			}
+			return true
+		})
+		if deref {
+			return false
+		}
+		if decided {
+			return verdict
+		}
+	}
+	return true
 }
